@@ -13,6 +13,14 @@ CHECKS = {
  "C04": ("metamorphic property-based testing (layout engine; tree of laid-out source == tree of canonical source)",
          "Generated programs under random free-form layouts plus exhaustive break subsets for small statements; "
          "canonical tree forms must agree up to name case.", TRUST, "DESIGN.md 5 C04"),
+ "C05": ("metamorphic property-based testing (fixed-form layout engine vs free-form canonical source; format detection)",
+         "Generated programs rendered in fixed form over wrap column, continuation mark, comment style, label "
+         "placement and column-72 literal splits; detection must say fixed and the tree must equal the free-form tree.",
+         TRUST, "DESIGN.md 5 C05"),
+ "C12": ("model-based property testing of the reader (expected item list by construction; get/put walks against a list model)",
+         "Reader items (text, label, name, span, comments) compared with the layout engine's ground truth for free and "
+         "fixed form, and drawn get/put histories compared with a list model including object identity on re-read.",
+         TRUST, "DESIGN.md 5 C12"),
  "C01": ("property-based round-trip (Hypothesis-driven program generator; parse/print/parse fixpoint oracle)",
          "Random programs from a structured Fortran generator are parsed, printed, re-parsed and re-printed; "
          "trees and texts must agree. Exploration is the right level: the domain is an infinite grammar.",
@@ -20,6 +28,6 @@ CHECKS = {
 }
 NOT_APPLICABLE = {
  pid: "check not built yet (work in progress; see DESIGN.md 5)" for pid in
- ["C05", "C06", "C07", "C08", "C09", "C10", "C11", "C12", "C13", "C14", "C15", "C16", "C17",
+ [ "C06", "C07", "C08", "C09", "C10", "C11", "C13", "C14", "C15", "C16", "C17",
   "C18", "C19", "C20"]
 }
